@@ -35,215 +35,13 @@ ASSUMPTIONS = [
     "process death model: only SimFS durable bytes survive an incarnation",
 ]
 
-CKPT = scenes.RUN + "/checkpoint.json"
-
-_OPTIMIZERS = {
-    "SGD": {"lr": 0.05},
-    "SGD-momentum": {"lr": 0.05, "momentum": 0.9},
-    "SGD-nesterov": {"lr": 0.05, "momentum": 0.9, "nesterov": True},
-    "Adam": {"lr": 0.1},
-    "Adam-amsgrad": {"lr": 0.1, "amsgrad": True},
-    "AdamW": {"lr": 0.1},
-    "Adamax": {"lr": 0.1},
-    "NAdam": {"lr": 0.05},
-    "RAdam": {"lr": 0.05},
-    "Adagrad": {"lr": 0.2},
-    "Adadelta": {"lr": 1.0},
-    "RMSprop": {"lr": 0.02},
-    "RMSprop-momentum": {"lr": 0.02, "momentum": 0.5, "centered": True},
-    "ASGD": {"lr": 0.05},
-    "Rprop": {"lr": 0.05},
-    "LBFGS": {"lr": 0.5, "max_iter": 3, "history_size": 4},
-}
-_SCHEDULERS = {
-    "none": None,
-    "LambdaLR": {"scheduler": "torch.optim.lr_scheduler.LambdaLR", "lr_lambda": "lambda epoch: 1.0 / (epoch + 1)**0.5"},
-    "StepLR": {"scheduler": "torch.optim.lr_scheduler.StepLR", "step_size": 3, "gamma": 0.5},
-    "ExponentialLR": {"scheduler": "torch.optim.lr_scheduler.ExponentialLR", "gamma": 0.9},
-    "CosineAnnealingLR": {"scheduler": "torch.optim.lr_scheduler.CosineAnnealingLR", "T_max": 7},
-    "MultiStepLR": {"scheduler": "torch.optim.lr_scheduler.MultiStepLR", "milestones": [2, 5, 9], "gamma": 0.3},
-}
+from sim.scenelib import CKPT, _OPTIMIZERS, _SCHEDULERS, build_spec  # noqa: E402,F401
 
 
 def worker_init():
     from sim import envinfo
 
     envinfo.setup()
-
-
-# ----------------------------------------------------------------------------
-# scenes
-# ----------------------------------------------------------------------------
-def build_spec(recipe):
-    """Deterministic: recipe -> (specification, metadata)."""
-    kind = recipe["kind"]
-    if kind == "toy_opt":
-        return _toy_opt(recipe)
-    if kind == "toy_mcmc":
-        return _toy_mcmc(recipe)
-    if kind == "cli":
-        return _cli(recipe)
-    raise ValueError(kind)
-
-
-def _toy_opt(r):
-    dt = None if r.get("param_dtype") in (None, "default") else r["param_dtype"]
-    spec = scenes.toy_joint(dt, r.get("nn", False), r.get("dim", 3))
-    if r["loss"] == "map":
-        loss = "joint"
-        params = ["x", "z"]
-    else:
-        dim = r.get("dim", 3)
-        q = scenes.joint(
-            "variational",
-            [
-                scenes.dist("qx", "torch.distributions.Normal", "x", {
-                    "loc": scenes.param("qx.loc", [0.1] * dim, dt, r.get("nn", False)),
-                    "scale": scenes.transformed("qx.scale", "torch.distributions.ExpTransform", scenes.param("qx.scale.unres", [-1.0] * dim, dt, r.get("nn", False))),
-                }),
-                scenes.dist("qz", "torch.distributions.Normal", "z", {
-                    "loc": scenes.param("qz.loc", [0.0, 0.2], dt, r.get("nn", False)),
-                    "scale": scenes.transformed("qz.scale", "torch.distributions.ExpTransform", scenes.param("qz.scale.unres", [-1.5, -1.0], dt, r.get("nn", False))),
-                }),
-            ],
-        )
-        spec.append(q)
-        loss = {"id": "elbo", "type": r["loss"], "samples": r.get("samples", 2), "joint": "joint", "variational": "variational"}
-        if r.get("entropy"):
-            loss["entropy"] = True
-        params = ["qx.loc", "qx.scale.unres", "qz.loc", "qz.scale.unres"]
-    alg = r["algorithm"]
-    opt = {
-        "id": "opt",
-        "type": "Optimizer",
-        "algorithm": "torch.optim." + alg.split("-")[0],
-        "options": dict(_OPTIMIZERS[alg]),
-        "maximize": True,
-        "checkpoint": CKPT,
-        "checkpoint_frequency": r["freq"],
-        "iterations": r["iterations"],
-        "loss": loss,
-        "parameters": params,
-    }
-    if r.get("groups"):
-        half = max(1, len(params) // 2)
-        opt["parameters"] = [{"params": params[:half]}, {"params": params[half:], "lr": _OPTIMIZERS[alg]["lr"] * 0.5}]
-    sch = _SCHEDULERS[r.get("scheduler", "none")]
-    if sch is not None and alg != "LBFGS":
-        opt["scheduler"] = dict(sch, type="torchtree.optim.Scheduler")
-    if r.get("convergence") and r["loss"] != "map" and alg != "LBFGS":
-        opt["convergence"] = {"type": "VariationalConvergence", "loss": "elbo", "every": r.get("conv_every", 3), "samples": 3,
-                              "file_name": scenes.RUN + "/elbo.txt"}
-    if r.get("logger"):
-        opt["loggers"] = [{"id": "logger", "type": "Logger", "parameters": params, "file_name": scenes.RUN + "/opt.csv", "every": 1}]
-    spec.append(opt)
-    return spec, {"algo": "Optimizer", "algo_id": "opt", "ckpt": CKPT}
-
-
-def _toy_mcmc(r):
-    dt = None if r.get("param_dtype") in (None, "default") else r["param_dtype"]
-    dim = r.get("dim", 3)
-    spec = [
-        scenes.joint(
-            "joint",
-            [
-                scenes.dist("px", "torch.distributions.Normal", scenes.param("x", [0.3 * (i + 1) for i in range(dim)], dt), {"loc": [0.5] * dim, "scale": [1.5] * dim}),
-                scenes.dist("ps", "torch.distributions.Gamma", scenes.param("s", [1.2, 0.7], dt), {"concentration": [2.0, 3.0], "rate": [1.0, 2.0]}),
-                scenes.dist("pf", "torch.distributions.Dirichlet", scenes.param("f", [0.1, 0.2, 0.3, 0.4], dt), {"concentration": [2.0, 1.0, 1.5, 3.0]}),
-                scenes.dist(
-                    "py", "torch.distributions.Gamma",
-                    scenes.transformed("y", "torch.distributions.ExpTransform", scenes.param("z", [0.1, -0.4], dt)),
-                    {"concentration": [2.0, 3.0], "rate": [1.0, 2.0]},
-                ),
-                "y",
-            ],
-        )
-    ]
-    ops = []
-    common = {}
-    if r.get("disable_adaptation"):
-        common["disable_adaptation"] = True
-    if r.get("window"):
-        common["acceptance_window_length"] = r["window"]
-    for name in r["operators"]:
-        if name == "sliding":
-            ops.append(dict({"id": "op.x", "type": "SlidingWindowOperator", "parameters": "x", "weight": 2.0, "width": 0.8}, **common))
-        elif name == "sliding2":
-            ops.append(dict({"id": "op.z", "type": "SlidingWindowOperator", "parameters": ["z", "x"], "weight": 1.0, "width": 0.4}, **common))
-        elif name == "scaler":
-            ops.append(dict({"id": "op.s", "type": "ScalerOperator", "parameters": "s", "weight": 1.5, "scaler": 0.6}, **common))
-        elif name == "dirichlet":
-            ops.append(dict({"id": "op.f", "type": "DirichletOperator", "parameters": "f", "weight": 1.0, "scaler": 50.0}, **common))
-        elif name.startswith("hmc"):
-            hp = ["x", "z"]
-            n = dim + 2
-            mm = {"id": "hmc.mass", "type": "Parameter"}
-            if "dense" in name:
-                mm["eye"] = n
-            else:
-                mm["ones"] = n
-            op = {"id": "op.hmc", "type": "HMCOperator", "joint": "joint", "parameters": hp, "weight": 1.0,
-                  "integrator": {"id": "leapfrog", "type": "LeapfrogIntegrator", "steps": r.get("leap_steps", 3), "step_size": 0.15},
-                  "mass_matrix": mm, "adaptors": []}
-            if r.get("find_step_size"):
-                op["find_reasonable_step_size"] = True
-            if "mass" in name:
-                ad = {"id": "mass.adaptor", "type": "MassMatrixAdaptor", "mass_matrix": "hmc.mass", "update_frequency": r.get("mass_freq", 4), "parameters": hp}
-                if r.get("mass_window"):
-                    ad["variance_window"] = 1
-                elif r.get("mass_swap"):
-                    ad["swap_every"] = r["mass_swap"]
-                op["adaptors"].append(ad)
-            if "dual" in name:
-                op["adaptors"].append({"id": "step.adaptor", "type": "DualAveragingStepSize", "integrator": "leapfrog"})
-            elif "adaptive" in name:
-                ad = {"id": "step.adaptor", "type": "AdaptiveStepSize", "integrator": "leapfrog", "target_acceptance_probability": 0.8}
-                if r.get("use_acceptance_rate"):
-                    ad["use_acceptance_rate"] = True
-                op["adaptors"].append(ad)
-            ops.append(op)
-    mcmc = {"id": "mcmc", "type": "MCMC", "joint": "joint", "iterations": r["iterations"], "operators": ops,
-            "checkpoint": CKPT, "checkpoint_frequency": r["freq"], "every": r.get("every", 0)}
-    if r.get("logger"):
-        mcmc["loggers"] = [{"id": "logger", "type": "Logger", "parameters": ["joint", "x", "s", "f", "z"], "file_name": scenes.RUN + "/mcmc.csv", "every": r.get("log_every", 1)}]
-    spec.append(mcmc)
-    return spec, {"algo": "MCMC", "algo_id": "mcmc", "ckpt": CKPT}
-
-
-def _cli(r):
-    sub = r["sub"]
-    args = [sub] + scenes.tiny_args() + list(r["args"]) + ["--stem", scenes.RUN + "/x"]
-    if sub != "map":
-        args += ["--iter", str(r["iterations"])]
-    if sub in ("mcmc", "hmc"):
-        args += ["--log_every", str(r.get("log_every", 1))]
-    spec = scenes.cli(args)
-    if sub in ("mcmc", "hmc"):
-        aid = "mcmc" if sub == "mcmc" else "hmc"
-        m = scenes.find(spec, aid)
-        m["checkpoint"] = CKPT
-        m["checkpoint_frequency"] = r["freq"]
-        m["every"] = 0
-        if not r.get("logger", True):
-            m.pop("loggers", None)
-        return spec, {"algo": "MCMC", "algo_id": aid, "ckpt": CKPT}
-    aid = "advi" if sub == "advi" else "map"
-    spec = [e for e in spec if e.get("type") != "Sampler" and not str(e.get("type", "")).endswith("Logger")]
-    o = scenes.find(spec, aid)
-    if o is None:
-        o = [e for e in spec if e.get("type") == "Optimizer"][0]
-        aid = o["id"]
-    o["checkpoint"] = CKPT
-    o["checkpoint_frequency"] = r["freq"]
-    o["iterations"] = r["iterations"]
-    if sub == "map":
-        o["options"]["max_iter"] = 3
-    if "convergence" in o:
-        if r.get("convergence"):
-            o["convergence"] = {"type": "VariationalConvergence", "loss": o["convergence"]["loss"], "every": 3, "samples": 2}
-        else:
-            del o["convergence"]
-    return spec, {"algo": "Optimizer", "algo_id": aid, "ckpt": CKPT}
 
 
 # ----------------------------------------------------------------------------
